@@ -19,7 +19,20 @@ import (
 	"github.com/internetarchive/Zeno/internal/verif/vrt/vsched"
 )
 
-const propID = "C14"
+// The same harness serves as part B of C18 (harness/c18b is a link to this directory's main.go): there only
+// the scenarios with the real disk watchdog on a disk that fills up are run, and the clause judged is
+// C18's "pauses while running exactly when free space is below the threshold".
+var (
+	propID      = "C14"
+	harnessName = "c14"
+	diskMode    = false
+)
+
+func init() {
+	if os.Getenv("VERIF_PART") == "c18b" || strings.HasSuffix(os.Args[0], "c18b") || os.Getenv("VERIF_HARNESS") == "c18b" {
+		propID, harnessName, diskMode = "C18", "c18b", true
+	}
+}
 
 const H = "http://s.example"
 
@@ -34,6 +47,10 @@ type scen struct {
 	// DiskFullFrom: from this virtual second on the disk is full and stays full (0 = readings are
 	// a choice at every tick): a stop request then finds the pipeline paused by the disk watchdog
 	DiskFullFrom int `json:"disk_full_from,omitempty"`
+	// DiskLowFirst: the disk is also full during [a,b) seconds before that (it hovers around the threshold);
+	// SlowAssetMs: the page's asset is answered that late, so a worker acknowledges a pause only then
+	DiskLowFirst [2]int `json:"disk_low_first,omitempty"`
+	SlowAssetMs  int    `json:"slow_asset_ms,omitempty"`
 
 	Anchors bool     `json:"anchors,omitempty"` // the page has anchors and --max-hops is 1: outlinks flow to the finisher
 	Scripts []string `json:"scripts"`           // one per controller, over {P,R}
@@ -45,6 +62,9 @@ type scen struct {
 
 func (s *scen) name() string {
 	if s.Watchers {
+		if s.DiskLowFirst[1] > 0 {
+			return fmt.Sprintf("watchers disk-full=[%d,%d)s+from %ds slow-asset=%dms stop-at=%ds w%d", s.DiskLowFirst[0], s.DiskLowFirst[1], s.DiskFullFrom, s.SlowAssetMs, s.StopAt, s.Workers)
+		}
 		if s.DiskFullFrom > 0 {
 			return fmt.Sprintf("watchers disk-full-from=%ds stop-at=%ds operator-at=%ds w%d", s.DiskFullFrom, s.StopAt, s.Operator, s.Workers)
 		}
@@ -69,6 +89,7 @@ type obs struct {
 	calls          []*call
 	wakeViolations []string
 	stopReturned   bool
+	pausedAtStop   bool
 	ctlDone        int
 }
 
@@ -85,6 +106,9 @@ func scenario(s *scen) *vsched.Scenario {
 	sc := &vsched.Scenario{Name: s.name()}
 	d := site()
 	d.Seeds = d.Seeds[:s.Seeds]
+	if s.SlowAssetMs > 0 {
+		d.Nodes[1].DelayMs = s.SlowAssetMs
+	}
 	hops := 0
 	if s.Anchors {
 		// the page also has anchors: with --max-hops 1 the postprocessor feeds them downstream one by one
@@ -103,7 +127,8 @@ func scenario(s *scen) *vsched.Scenario {
 				st.Bsize, st.Blocks = 4096, 1<<30
 				st.Bavail = 1 << 29 // 2 TiB free
 				if s.DiskFullFrom > 0 {
-					if vsched.Cur().Now() >= time.Duration(s.DiskFullFrom)*time.Second {
+					now := vsched.Cur().Now()
+					if now >= time.Duration(s.DiskFullFrom)*time.Second || (now >= time.Duration(s.DiskLowFirst[0])*time.Second && now < time.Duration(s.DiskLowFirst[1])*time.Second) {
 						st.Bavail = 10
 					}
 				} else if vsched.Choose("h:the disk is almost full at this tick", 2) == 1 {
@@ -238,6 +263,9 @@ func watcherBody(s *scen, w *world.World, o *obs) {
 	}
 	go func() { // controler.stopPipeline
 		time.Sleep(time.Duration(s.StopAt) * time.Second)
+		o.mu.Lock()
+		o.pausedAtStop = pause.IsPaused()
+		o.mu.Unlock()
 		watchers.StopDiskWatcher()
 		watchers.StopWARCWritingQueueWatcher()
 		<-drained // archiver.Stop waits for the (uninstrumented) writers: model them as done by then
@@ -267,6 +295,11 @@ func oracle(s *scen, x *vsched.Exec, w *world.World, o *obs) error {
 		if c.Ret < 0 {
 			return fmt.Errorf("caller-blocked: controller %d never returned from %s (manager paused at call: %v; paused now: %v)", c.Ctl, opName(c.Op), c.Paused, paused)
 		}
+	}
+	// the disk watchdog keeps the pipeline paused while the disk is full: two of its ticks after the disk
+	// filled up for good the pipeline must be paused
+	if diskMode && s.Watchers && s.DiskFullFrom > 0 && s.StopAt >= s.DiskFullFrom+11 && !o.pausedAtStop {
+		return fmt.Errorf("running-although-disk-full: the disk has been full since t=%ds, at t=%ds (two watchdog ticks later) the pipeline is not paused", s.DiskFullFrom, s.StopAt)
 	}
 	if s.Stop && !o.stopReturned {
 		return fmt.Errorf("stop-blocked: the stop sequence never returned (paused now: %v); parked: %s", paused, strings.Join(x.Blocked(), "; "))
@@ -428,6 +461,10 @@ func scenarios(tier string) []scen {
 			out = append(out, scen{Watchers: true, DiskFullFrom: 4, StopAt: stopAt, Operator: op, Seeds: 1, Workers: 1, P: P - 1, F: P})
 		}
 	}
+	// the disk hovers around the threshold while a worker is busy with a slow fetch: full at the first
+	// tick, free at the second, full again - before the busy worker has acknowledged - and for good
+	out = append(out, scen{Watchers: true, DiskLowFirst: [2]int{4, 9}, DiskFullFrom: 14, SlowAssetMs: 17000, StopAt: 40, Seeds: 1, Workers: 1, P: P - 1, F: P})
+	out = append(out, scen{Watchers: true, DiskLowFirst: [2]int{4, 9}, DiskFullFrom: 14, SlowAssetMs: 12000, StopAt: 40, Seeds: 1, Workers: 1, P: P - 1, F: P})
 	// shutdown after the controllers: paused or not
 	for _, a := range []string{"", "P", "PR", "PRP"} {
 		out = append(out, scen{Scripts: []string{a}, Stop: true, Seeds: 1, Workers: 1, P: P})
@@ -447,6 +484,15 @@ type jobResult struct {
 func main() {
 	a := hkit.ParseArgs()
 	ss := scenarios(a.Tier)
+	if diskMode {
+		var f []scen
+		for _, s := range ss {
+			if s.Watchers && s.DiskFullFrom > 0 {
+				f = append(f, s)
+			}
+		}
+		ss = f
+	}
 	if a.Replay != "" {
 		replay(a.Replay)
 		return
@@ -503,7 +549,7 @@ func main() {
 			if err := vsched.Confirm(scenario(&ss[j]), &v); err != nil {
 				hkit.EngineError("violation did not replay: %v", err)
 			}
-			hkit.Report(propID, v.Sig, map[string]any{"engine": "explore", "harness": "c14", "scenario": ss[j], "violation": v},
+			hkit.Report(propID, v.Sig, map[string]any{"engine": "explore", "harness": harnessName, "scenario": ss[j], "violation": v},
 				fmt.Sprintf("%s: %s: %s", r.Name, v.Kind, firstLine(v.Message)))
 		}
 		total.Merge(r.Rep)
@@ -517,7 +563,7 @@ func main() {
 		"workers subscribe at start-up; Subscribe concurrent with Pause is not in the alphabet",
 		"sync.Map.Range of the subscriber table iterates in insertion order",
 	}, hkit.Violations())
-	fmt.Printf("C14 %s: %d scenarios, %d executions, %d states, %d transitions, exhaustive=%v\n", a.Tier, len(ss), total.Executions, total.States, total.Transitions, total.Exhaustive)
+	fmt.Printf(propID+" %s"+map[bool]string{true: " (part B)", false: ""}[diskMode]+": %d scenarios, %d executions, %d states, %d transitions, exhaustive=%v\n", a.Tier, len(ss), total.Executions, total.States, total.Transitions, total.Exhaustive)
 	hkit.Exit()
 }
 
